@@ -25,8 +25,9 @@ LEVEL = "model_checking"
 
 # (cfg, quick: (mode, traces, both variants) | None, thorough: (...))
 RUNS = [
-    ("C12_sim", ("simulate", 900, 0), ("simulate", 9000, 0)),
+    ("C12_sim", ("simulate", 700, 0), ("simulate", 3000, 0)),
     ("C12_evict_d3", ("bfs", None, 0), ("bfs", None, 1)),
+    ("C12_mutex_d2", ("bfs", None, 1), ("bfs", None, 1)),
     ("C12_evict_d4", None, ("bfs", None, 0)),
 ]
 
@@ -39,8 +40,10 @@ def run(ctx):
     ctx.rule = ("behaviour = configuration (cache type x size x set/mutex) + stored contents + a history: C12_sim = 12 steps "
                 "drawn by seeded TLC simulation, one randomly parameterised instance per action class and step, over all "
                 "write paths, Recalculate, restart and the five query classes (4 rows x 3 abstract columns of weight 1,2,4); "
-                "C12_evict_d3/d4 = every history of 3/4 steps over roaring import set/clear of {1},{2,3},{1,2,3} into 2 rows "
-                "and Recalculate, cache size 1, ranked and LRU (TLC BFS). Behaviours of one configuration are replayed 8 per "
+                "C12_evict_d3 = every history of 3 steps over roaring import set/clear of {1},{2,3},{1,2,3} into 2 rows "
+                "and Recalculate, cache size 1 (d4: 4 steps, column sets {1},{1,2,3}); C12_mutex_d2 = every pair of steps over "
+                "single-row imports and 'Recalculate; TopN' on a mutex field of 3 rows x 2 columns from 3 stored shapes, cache "
+                "size 2; all for ranked and LRU (TLC BFS). Behaviours of one configuration are replayed 8 per "
                 "field (emptied in between) under a seeded refinement (row ids, column blocks in 1 or 2 shards, import order, "
                 "roaring encoding), asking only the behaviour's queries (sparse) or also TopN(ids = all rows) after every "
                 "write (full); one evaluation = one behaviour under one variant, every answer compared.")
@@ -55,16 +58,12 @@ def run(ctx):
         "cache type none: TopN is refused ('field has no cache'); that is accepted, a wrong count would not be",
         "a requested row missing from a TopN(ids) answer counts as a reported count of 0"]
     sel = [(cfg,) + (t if thorough else q) for cfg, q, t in RUNS if (t if thorough else q)]
-    if thorough:
-        m = ctx.modelcheck("TopN", "C12_mc", timeout=1200, workers=4)
-        if m.violation:
-            raise vlib.Inconclusive("oracle invariant violated in C12_mc:\n%s" % m.violation[:2000])
     # (M) the cache design (spec/TopNCache.tla): the repaired design keeps IdsExact / TopNComplete in
     # the small scope; thorough: also the larger scope, and the design before each repair must
     # still show its counterexample (the model can see the defect classes)
     mc = [("C12_cacheq", "mc", "TopNCache")]
     if thorough:
-        mc = [("C12_cache", "mc", "TopNCache"), ("C12_cache3", "mc", "TopNCache")]
+        mc = [("C12_cache", "mc", "TopNCache"), ("C12_mc", "mc", "TopN")]
         mc += [(c, "mc_expect", "TopNCache") for c in ("C12_cacheold_delta", "C12_cacheold_below", "C12_cacheold_tomb", "C12_cacheold_order")]
     gen = tncommon.generate_all(ctx, [(cfg, mode, num) for cfg, mode, num, both in sel] + mc, "TopN")
     first = True
